@@ -334,3 +334,94 @@ Proof.
     apply (decode_encode_runs card runs cap tl len H).
     rewrite lenN_cons, !lenN_app, !lenN_le_bytes, length_enc_runs in Hlen. lia.
 Qed.
+
+(* ---- C14: the decoder on arbitrary input ---- *)
+Lemma nth_firstn_agree (z z' : list N) k i : firstn k z = firstn k z' -> (i < k)%nat -> nth i z 0 = nth i z' 0.
+Proof.
+  revert z z' i. induction k as [|k IH]; intros z z' i H Hi; [lia|].
+  destruct z as [|a z], z' as [|b z']; cbn [firstn] in H; try discriminate H.
+  - reflexivity.
+  - inversion H; subst. destruct i as [|i]; [reflexivity|]. cbn [nth]. apply IH; [assumption|lia].
+Qed.
+
+(* the result depends only on the first `len` bytes of the buffer *)
+Theorem decode_nonint z z' len :
+  firstn (N.to_nat len) z = firstn (N.to_nat len) z' -> bm_decode z len = bm_decode z' len.
+Proof.
+  intro H. unfold bm_decode. destruct (len <? 5) eqn:C1; [reflexivity|].
+  assert (E0 : bm_nthN z 0 = bm_nthN z' 0).
+  { rewrite !nthN_spec. apply (nth_firstn_agree z z' (N.to_nat len)); [exact H|lia]. }
+  assert (E1 : bm_rd z 1 4 = bm_rd z' 1 4) by (apply (rd_nonint z z' 1 4 (N.to_nat len)); [lia|exact H]).
+  rewrite E0, E1. set (ty := bm_nthN z' 0). set (card := of_le (bm_rd z' 1 4)).
+  destruct ((2 <? ty) || (65536 <? card)) eqn:C2; [reflexivity|].
+  destruct (ty =? 0) eqn:T0.
+  - destruct ((len - 5) / 2 <? card) eqn:C3; [reflexivity|].
+    assert (E5 : bm_rd z 5 (card * 2) = bm_rd z' 5 (card * 2)) by (apply (rd_nonint z z' _ _ (N.to_nat len)); [lia|exact H]).
+    rewrite E5. reflexivity.
+  - destruct (ty =? 1) eqn:T1.
+    + destruct (len - 5 <? 8192) eqn:C3; [reflexivity|].
+      assert (E5 : bm_rd z 5 8192 = bm_rd z' 5 8192) by (apply (rd_nonint z z' _ _ (N.to_nat len)); [lia|exact H]).
+      rewrite E5. reflexivity.
+    + destruct (len - 5 <? 4) eqn:C3; [reflexivity|].
+      assert (E5 : bm_rd z 5 4 = bm_rd z' 5 4) by (apply (rd_nonint z z' _ _ (N.to_nat len)); [lia|exact H]).
+      rewrite E5. set (nr := of_le (bm_rd z' 5 4)).
+      destruct ((card <? nr) || ((len - 5 - 4) / 4 <? nr)) eqn:C4; [reflexivity|].
+      assert (E9 : bm_rd z 9 (nr * 4) = bm_rd z' 9 (nr * 4)) by (apply (rd_nonint z z' _ _ (N.to_nat len)); [lia|exact H]).
+      rewrite E9. reflexivity.
+Qed.
+
+(* it asks malloc for at most 24 + max(len, 8192) bytes in total *)
+Theorem decode_alloc z len : snd (bm_decode z len) <= 24 + N.max len 8192.
+Proof.
+  unfold bm_decode. destruct (len <? 5) eqn:C1; [cbn [snd]; lia|].
+  set (ty := bm_nthN z 0). set (card := of_le (bm_rd z 1 4)).
+  destruct ((2 <? ty) || (65536 <? card)) eqn:C2; [cbn [snd]; lia|].
+  destruct (ty =? 0) eqn:T0.
+  - destruct ((len - 5) / 2 <? card) eqn:C3; [cbn [snd]; lia|].
+    destruct (bm_ascending _); cbn [snd]; lia.
+  - destruct (ty =? 1) eqn:T1.
+    + destruct (len - 5 <? 8192) eqn:C3; [cbn [snd]; lia|].
+      destruct (_ =? card); cbn [snd]; lia.
+    + destruct (len - 5 <? 4) eqn:C3; [cbn [snd]; lia|].
+      set (nr := of_le (bm_rd z 5 4)).
+      destruct ((card <? nr) || ((len - 5 - 4) / 4 <? nr)) eqn:C4; [cbn [snd]; lia|].
+      destruct (bm_check_runs _ 0 0) as [total|]; [destruct (total =? card)|]; cbn [snd]; lia.
+Qed.
+
+(* whatever it accepts is a well-formed bitmap *)
+Theorem decode_inv z len s : bytes_ok z -> fst (bm_decode z len) = Some s -> bm_Inv s.
+Proof.
+  intro Hz. unfold bm_decode. destruct (len <? 5) eqn:C1; [intro Hd; discriminate Hd|].
+  set (ty := bm_nthN z 0). set (card := of_le (bm_rd z 1 4)).
+  destruct ((2 <? ty) || (65536 <? card)) eqn:C2; [intro Hd; discriminate Hd|].
+  destruct (ty =? 0) eqn:T0.
+  - destruct ((len - 5) / 2 <? card) eqn:C3; [intro Hd; discriminate Hd|].
+    set (l := bm_rd z 5 (card * 2)).
+    destruct (bm_ascending (bm_dec_u16s l)) eqn:A; cbn [fst]; [|intro Hd; discriminate Hd].
+    intro E. inversion E; subst s. clear E.
+    destruct (dec_u16s_props l (bytes_ok_rd z 5 (card * 2) Hz) (N.to_nat card)) as [L B];
+      [unfold l; rewrite rd_length; lia|].
+    unfold bm_Inv, arr_ok. cbn [bm_c bm_card]. rewrite arr_of_values_rev, rev_involutive, lenN_rev.
+    unfold bm_lenN. rewrite L. repeat split; [lia|apply (proj1 (ascending_sorted _)); exact A| |lia].
+    intros x Hx. apply B. apply in_rev. exact Hx.
+  - destruct (ty =? 1) eqn:T1.
+    + destruct (len - 5 <? 8192) eqn:C3; [intro Hd; discriminate Hd|].
+      set (l := bm_rd z 5 8192).
+      destruct (bm_bitmap_cardinality (bm_mem_of_bytes l) =? card) eqn:A; cbn [fst]; [|intro Hd; discriminate Hd].
+      intro E. inversion E; subst s. clear E.
+      unfold bm_Inv, bits_ok. cbn [bm_c bm_card]. rewrite bitmap_cardinality_spec in A. split; [|lia].
+      intro i. rewrite mget_mem_of_bytes. pose proof (bytes_ok_rd z 5 8192 Hz) as Hl. fold l in Hl.
+      apply (byte_at_lt l (N.to_nat i) Hl).
+    + destruct (len - 5 <? 4) eqn:C3; [intro Hd; discriminate Hd|].
+      set (nr := of_le (bm_rd z 5 4)).
+      destruct ((card <? nr) || ((len - 5 - 4) / 4 <? nr)) eqn:C4; [intro Hd; discriminate Hd|].
+      set (l := bm_rd z 9 (nr * 4)).
+      destruct (dec_runs_props l (bytes_ok_rd z 9 (nr * 4) Hz) (N.to_nat nr)) as [L B];
+        [unfold l; rewrite rd_length; lia|].
+      destruct (bm_check_runs (bm_dec_runs l) 0 0) as [total|] eqn:K; [|intro Hd; discriminate Hd].
+      destruct (total =? card) eqn:A; cbn [fst]; [|intro Hd; discriminate Hd].
+      intro E. inversion E; subst s. clear E.
+      destruct (check_runs_sound (bm_dec_runs l) 0 0 total) as [R1 R2]; try lia; [|exact K|].
+      * intros r Hr. destruct (B r Hr). lia.
+      * unfold bm_Inv, runs_inv. cbn [bm_c bm_card]. unfold bm_lenN. rewrite L. repeat split; [exact R1|lia|lia].
+Qed.
